@@ -108,32 +108,69 @@ def assignsTo (x : Sym) : St → Bool
 
 def assignedIn (x : Sym) (ss : List St) : Bool := ss.any (assignsTo x)
 
-/-- Second loop of `make_declarative`.  `seen` = symbols assigned so far
+/-! #### the code before the repair e5b2100 (kept for the witness theorems) -/
+
+/-- Second loop of `make_declarative` as it was before `fix: make_declarative substitutes pending values into the
+    first assignment of a reassigned symbol`.  `seen` = symbols assigned so far
     (`i not in duplicated_symbols[s.symbol]` ⇔ first assignment of the symbol
     ⇔ not in `seen`); a symbol is in `duplicated_symbols` iff it is assigned
     earlier or later; the index list becomes empty exactly at the last
-    assignment.  (`mdLit` below is the index-list transcription; the driver
-    answers with both and the harness compares them with the code.) -/
+    assignment. -/
+def mdGoOld (seen : List Sym) (cur : Sub) : List St → List St
+  | [] => []
+  | .ode a r :: rest => .ode a (r.map (substE cur)) :: mdGoOld seen cur rest
+  | .assign x e :: rest =>
+    if !seen.contains x && !assignedIn x rest then
+      .assign x (substE cur e) :: mdGoOld (x :: seen) cur rest          -- not duplicated
+    else if !seen.contains x then
+      mdGoOld (x :: seen) (cur.set x e) rest                             -- first of several: NOT substituted
+    else if assignedIn x rest then
+      mdGoOld seen (cur.set x (substE cur e)) rest                       -- in the middle
+    else
+      .assign x (substE cur e) :: mdGoOld seen (cur.del x) rest          -- last: emit, `del current[x]`
+
+def makeDeclarativeOld (ss : List St) : List St := mdGoOld [] [] ss
+
+/-- The decidable side-condition of the pre-repair code: (a) the first assignment of a
+    re-assigned symbol reads no symbol whose inlined value is pending (the
+    code stores that expression un-substituted); (b) no emitted statement
+    defines a symbol that a still pending value reads (the pending value
+    would silently switch to the new value). -/
+def mdSafeOld (seen : List Sym) (cur : Sub) : List St → Bool
+  | [] => true
+  | .ode a _ :: rest =>
+    a.all (fun y => !cur.dom.contains y && !cur.rangeSyms.contains y) && mdSafeOld seen cur rest
+  | .assign x e :: rest =>
+    if !seen.contains x && !assignedIn x rest then
+      !cur.rangeSyms.contains x && mdSafeOld (x :: seen) cur rest
+    else if !seen.contains x then
+      e.syms.all (fun y => !cur.dom.contains y) && mdSafeOld (x :: seen) (cur.set x e) rest
+    else if assignedIn x rest then
+      mdSafeOld seen (cur.set x (substE cur e)) rest
+    else
+      !(cur.del x).rangeSyms.contains x && mdSafeOld seen (cur.del x) rest
+
+def noStaleCaptureOld (ss : List St) : Bool := mdSafeOld [] [] ss
+
+/-! #### make_declarative as it is now: the pending values are substituted into the first assignment too -/
+
+/-- Second loop of `make_declarative`.  A symbol is in `duplicated_symbols` iff it is assigned earlier (`seen`) or
+    later; `i not in duplicated_symbols[s.symbol]` ⇔ first assignment; the index list becomes empty exactly at the
+    last assignment.  First and middle assignments both store `s.expression.subs(current)`.  (`mdLit` below is the
+    index-list transcription; the driver answers with both and the harness compares them with the code.) -/
 def mdGo (seen : List Sym) (cur : Sub) : List St → List St
   | [] => []
   | .ode a r :: rest => .ode a (r.map (substE cur)) :: mdGo seen cur rest
   | .assign x e :: rest =>
     if !seen.contains x && !assignedIn x rest then
-      .assign x (substE cur e) :: mdGo (x :: seen) cur rest          -- not duplicated
-    else if !seen.contains x then
-      mdGo (x :: seen) (cur.set x e) rest                             -- first of several: NOT substituted
+      .assign x (substE cur e) :: mdGo (x :: seen) cur rest
     else if assignedIn x rest then
-      mdGo seen (cur.set x (substE cur e)) rest                       -- in the middle
+      mdGo (x :: seen) (cur.set x (substE cur e)) rest          -- first or middle: always substituted
     else
-      .assign x (substE cur e) :: mdGo seen (cur.del x) rest          -- last: emit, `del current[x]`
+      .assign x (substE cur e) :: mdGo seen (cur.del x) rest
 
-def makeDeclarative (ss : List St) : List St := mdGo [] [] ss
-
-/-- The decidable side-condition `NoStaleCapture`: (a) the first assignment of a
-    re-assigned symbol reads no symbol whose inlined value is pending (the
-    code stores that expression un-substituted); (b) no emitted statement
-    defines a symbol that a still pending value reads (the pending value
-    would silently switch to the new value). -/
+/-- The decidable side-condition `NoStaleCapture` of the current code — only clause (b) of `mdSafeOld` remains:
+    no emitted statement defines a symbol that a still pending value reads. -/
 def mdSafe (seen : List Sym) (cur : Sub) : List St → Bool
   | [] => true
   | .ode a _ :: rest =>
@@ -141,40 +178,14 @@ def mdSafe (seen : List Sym) (cur : Sub) : List St → Bool
   | .assign x e :: rest =>
     if !seen.contains x && !assignedIn x rest then
       !cur.rangeSyms.contains x && mdSafe (x :: seen) cur rest
-    else if !seen.contains x then
-      e.syms.all (fun y => !cur.dom.contains y) && mdSafe (x :: seen) (cur.set x e) rest
     else if assignedIn x rest then
-      mdSafe seen (cur.set x (substE cur e)) rest
+      mdSafe (x :: seen) (cur.set x (substE cur e)) rest
     else
       !(cur.del x).rangeSyms.contains x && mdSafe seen (cur.del x) rest
 
+def makeDeclarative (ss : List St) : List St := mdGo [] [] ss
+
 def noStaleCapture (ss : List St) : Bool := mdSafe [] [] ss
-
-/-! #### the suggested repair: substitute the pending values into the first assignment too -/
-
-def mdGoFix (seen : List Sym) (cur : Sub) : List St → List St
-  | [] => []
-  | .ode a r :: rest => .ode a (r.map (substE cur)) :: mdGoFix seen cur rest
-  | .assign x e :: rest =>
-    if !seen.contains x && !assignedIn x rest then
-      .assign x (substE cur e) :: mdGoFix (x :: seen) cur rest
-    else if assignedIn x rest then
-      mdGoFix (x :: seen) (cur.set x (substE cur e)) rest          -- first or middle: always substituted
-    else
-      .assign x (substE cur e) :: mdGoFix seen (cur.del x) rest
-
-/-- Only clause (b) of `mdSafe` remains. -/
-def mdSafeFix (seen : List Sym) (cur : Sub) : List St → Bool
-  | [] => true
-  | .ode a _ :: rest =>
-    a.all (fun y => !cur.dom.contains y && !cur.rangeSyms.contains y) && mdSafeFix seen cur rest
-  | .assign x e :: rest =>
-    if !seen.contains x && !assignedIn x rest then
-      !cur.rangeSyms.contains x && mdSafeFix (x :: seen) cur rest
-    else if assignedIn x rest then
-      mdSafeFix (x :: seen) (cur.set x (substE cur e)) rest
-    else
-      !(cur.del x).rangeSyms.contains x && mdSafeFix seen (cur.del x) rest
 
 /-! #### literal transcription with index lists -/
 
@@ -198,7 +209,7 @@ def mdLit (ss : List St) : List St :=
       match dups.lookup x with
       | some idx =>
         if !idx.contains i then
-          go (i + 1) dups (cur.set x e) rest
+          go (i + 1) dups (cur.set x (substE cur e)) rest
         else
           let idx' := idx.drop 1
           let dups' := (x, idx') :: dups.filter (fun p => p.1 != x)
